@@ -91,15 +91,21 @@ pub struct RangeMap<T, V> {
     pub elts: Vec<(Range<T>, V)>,
 }
 
-// ASSUMED contract on the dependency (range-map 0.2.0 `try_from_iter` + `normalize`): on a vector
-// that is already sorted, well formed and pairwise disjoint nothing is discarded, so the
+// Contract of the dependency (range-map 0.2.0 `try_from_iter` + `normalize`), proved on the crate's source
+// by unit dep_range_map: on a vector that is already sorted, well formed, pairwise disjoint and without
+// touching equal-valued neighbours nothing is discarded or merged, so the
 // `.unwrap()` the real code applies cannot panic; the resulting map answers `get(a)` with the value
 // of the unique input entry containing `a` (normalize only joins touching equal-valued entries).
 // The *precondition* is the panic condition of `try_from_iter(..).unwrap()` and is proved at the
 // call site.
+pub open spec fn sat1(x: u64) -> u64 { if x == u64::MAX { x } else { (x + 1) as u64 } }
+// no two neighbours that range_map's normalize would merge: touching equal-valued ranges
+pub open spec fn no_touch_eq<V>(e: Seq<(Range<u64>, V)>) -> bool {
+    forall|i: int| 0 <= i < e.len() - 1 ==> !((#[trigger] e[i + 1]).0.start <= sat1(e[i].0.end) && e[i].1 == e[i + 1].1)
+}
 #[verifier::external_body]
 pub fn ext_rangemap_from_sorted<V>(v: Vec<(Range<u64>, V)>) -> (m: RangeMap<u64, V>)
-    requires disjoint_sorted(v@),
+    requires disjoint_sorted(v@), no_touch_eq(v@),     // proved sufficient on the crate's source: unit dep_range_map
     ensures m.elts@ == v@,
 {
     unimplemented!()
